@@ -68,8 +68,8 @@ Definition conv (S T : ity) (z : Z) : cres Z :=
 
 (* convertible = Convert::IsConvertible<TSource, TTarget>() (a compile-time constant; true for every
    pair of arithmetic types and for string -> arithmetic); r = outcome of Convert::To<TTarget>(source)
-   when convertible.  The non-convertible branch throws MismatchedTypes INSIDE the try block, where
-   the trailing catch (...) turns it into ParsingError. *)
+   when convertible.  The non-convertible branch throws MismatchedTypes inside the try block; the
+   handler "catch (const SerializationException&) { throw; }" (fix 76c37b6) lets it through unchanged. *)
 Definition convert_by_policy {A} (convertible : bool) (r : cres A) (old : A) (mism ovf : pol) : load_res A :=
   if convertible then
     match r with
@@ -80,7 +80,7 @@ Definition convert_by_policy {A} (convertible : bool) (r : cres A) (old : A) (mi
     | CUB => LoadUB
     end
   else
-    match mism with PThrow => Raised EParsingError | PSkip => NotLoaded old end.
+    match mism with PThrow => Raised EMismatchedTypes | PSkip => NotLoaded old end.
 
 (* loading an integer of type S into a target of type T holding [old] *)
 Definition load_int (S T : ity) (z old : Z) (mism ovf : pol) : load_res Z :=
